@@ -765,7 +765,11 @@ class LogicalLinkController(object):
         elif isinstance(addr_or_name, (bytes, bytearray)):
             self._bind_by_name(socket, bytes(addr_or_name))
         elif isinstance(addr_or_name, str):
-            self._bind_by_name(socket, addr_or_name.encode('latin'))
+            try:
+                name = addr_or_name.encode('latin')
+            except UnicodeEncodeError:
+                raise err.Error(errno.EFAULT)
+            self._bind_by_name(socket, name)
         else:
             raise err.Error(errno.EFAULT)
 
